@@ -182,14 +182,22 @@ func (c *Client) sendRepublishRequests(ctx context.Context, sub *Subscription, a
 	// todo(fs): check if sub.nextSeq is in the available sequence numbers
 	// todo(fs): if not then we need to decide whether we fail b/c of data loss
 	// todo(fs): or whether we log it and continue.
-	if len(availableSeq) > 0 && !slices.Contains(availableSeq, sub.nextSeq) {
-		log.Printf("sub %d: next sequence number %d not in retransmission buffer %v", sub.SubscriptionID, sub.nextSeq, availableSeq)
+	// the publish loop may still be handling the response to its last
+	// request: the sequence numbers are guarded by subMux
+	nextSeq := func() uint32 {
+		c.subMux.RLock()
+		defer c.subMux.RUnlock()
+		return sub.nextSeq
+	}
+
+	if next := nextSeq(); len(availableSeq) > 0 && !slices.Contains(availableSeq, next) {
+		log.Printf("sub %d: next sequence number %d not in retransmission buffer %v", sub.SubscriptionID, next, availableSeq)
 	}
 
 	for {
 		req := &ua.RepublishRequest{
 			SubscriptionID:           sub.SubscriptionID,
-			RetransmitSequenceNumber: sub.nextSeq,
+			RetransmitSequenceNumber: nextSeq(),
 		}
 
 		debug.Printf("Republishing subscription %d and sequence number %d",
@@ -240,11 +248,13 @@ func (c *Client) sendRepublishRequests(ctx context.Context, sub *Subscription, a
 			// Process the republished notification and advance sequence number
 			if res.NotificationMessage != nil {
 				c.notifySubscription(ctx, sub, res.NotificationMessage)
+				c.subMux.Lock()
 				sub.lastSeq = res.NotificationMessage.SequenceNumber
 				sub.nextSeq = sub.lastSeq + 1
+				c.subMux.Unlock()
 				debug.Printf("Republished notification %d for subscription %d", res.NotificationMessage.SequenceNumber, sub.SubscriptionID)
 
-				if len(availableSeq) > 0 && !slices.Contains(availableSeq, sub.nextSeq) {
+				if len(availableSeq) > 0 && !slices.Contains(availableSeq, nextSeq()) {
 					debug.Printf("Republishing subscription %d complete - no more sequences in buffer", sub.SubscriptionID)
 					return nil
 				}
